@@ -186,8 +186,8 @@ PROPS["C11"] = dict(
     design_ref="DESIGN.md section 7 (C11)",
     run_files=["Run/C11Run.v"],
     engines=[dict(cmd=["c11"], corr="Model.Queue.step + Model.Heap <-> storage.IndexNotificationQueue.Run, util/heap", timeout=900)],
-    level_text="Theorems over all event sequences (adds with any revisions and tables, cancellations, notifications, sweeps, caller reads, length queries): no handler ever blocks or panics, every waiter receives at most one answer, an OK answer is preceded by a notification at or beyond the waiter's revision, an error answer by its cancellation, and a sweep leaves no cancelled waiter behind. The real queue (real 1 s ticker) and util/heap are compared with the model on event scripts and operation sequences.",
-    level_note="Trusts: Coq kernel; Go channel/select semantics abstracted to one event at a time (a send on a full capacity-1 channel blocks the loop); the array heap's ORDER invariant (Peek = minimum), needed for 'released as soon as notified', is not yet proved - promptness is PARTIAL and checked by correspondence; that the notified index implies the write is applied rests on C05.",
+    level_text="Heap ORDER invariant proved (New establishes it, Push and Pop keep it, the root is a minimum), carried over the whole table map for every completed event sequence, hence promptness: after a handled notification of leader index r nobody in that table's queue waits for a revision <= r. Theorems over all event sequences (adds with any revisions and tables, cancellations, notifications, sweeps, caller reads, length queries): no handler ever blocks or panics, every waiter receives at most one answer, an OK answer is preceded by a notification at or beyond the waiter's revision, an error answer by its cancellation, and a sweep leaves no cancelled waiter behind. The real queue (real 1 s ticker) and util/heap are compared with the model on event scripts and operation sequences.",
+    level_note="Trusts: Coq kernel; Go channel/select semantics abstracted to one event at a time (a send on a full capacity-1 channel blocks the loop); that the notified index implies the write is applied rests on C05.",
     technique="Coq proof (invariant over the event-loop state machine, permutation lemmas for the array heap) + differential correspondence check against the real queue under its real ticker",
     trusted=["Model/Queue.v, Model/Heap.v hand-written models of storage/queue.go and util/heap"],
     assumptions=["every caller performs exactly one receive on its channel (regattaserver/kv.go does)", "waiter ids are unique"],
